@@ -973,6 +973,22 @@ func callWrites(c *ssa.CallCommon, visiting map[*ssa.Function]bool) map[string]b
 					out[n] = true
 				}
 			}
+			// ghost state written according to the interface method's assumed contract
+			if sp := lookupIfaceSpec(c.Value.Type(), c.Method.Name()); sp != nil {
+				if sp.ModAny {
+					out["*"] = true
+				}
+				for _, m := range sp.Modifies {
+					switch {
+					case m.Op == "call" && specs.GhostFields[m.Name] != "":
+						out["G$"+m.Name] = true
+					case m.Op == "call" && m.Name == "elems":
+						// covered by the argument arrays
+					default:
+						out["*"] = true
+					}
+				}
+			}
 			return out
 		}
 		for _, it := range impls {
@@ -1047,7 +1063,7 @@ func funcWrites(fn *ssa.Function, visiting map[*ssa.Function]bool) map[string]bo
 	}
 	visiting[fn] = true
 	out := map[string]bool{}
-	if sp := lookupSpec(fn); sp != nil && sp.HasModifies {
+	if sp := lookupSpec(fn); sp != nil && sp.HasModifies && !(sp.ModAny && fn.Blocks != nil && inScope(fn)) {
 		for n := range specWrites(sp, fn) {
 			out[n] = true
 		}
